@@ -8,4 +8,4 @@ ids="$@"
 [ -z "$ids" ] && ids=$(ls -d /tmp/seed/out/C??? | xargs -n1 basename)
 for s in $ids; do
   if [ -n "${ALSO[$s]}" ]; then echo "$s --also ${ALSO[$s]}"; else echo "$s"; fi
-done | xargs -P 5 -L 1 sh -c 'id=$0; shift 0; tools/eval_seed.py /tmp/seed/out/$id "$@" > .work/seedlogs/$id.log 2>&1'
+done | xargs -P ${EVALP:-5} -L 1 sh -c 'id=$0; shift 0; tools/eval_seed.py /tmp/seed/out/$id "$@" > .work/seedlogs/$id.log 2>&1'
